@@ -51,11 +51,29 @@ def generate(rng: random.Random, tier: str):
                "validate": True, "old": small_graph(rng) if pre == "geff" else None, **malform(rng, g)}
     for i in range(14 if tier == "quick" else 120):
         yield dicts_case(rng)
+    # crash points INSIDE a directory deletion: delete_dir carried out key by key (in several orders), each key deletion a point of
+    # failure -- the deletion of the previous geff under overwrite=True and the clean-up of a rejected write
+    for i in range(10 if tier == "quick" else 80):
+        g = small_graph(rng)
+        yield {"kind": "crash", "entry": "write_arrays", "fmt": rng.choice([2, 3]), "pre": "geff", "overwrite": True, "validate": True,
+               "old": rich_old(rng), "expand": rng.choice(["listing", "reversed", "chunks-first", "meta-first"]), **g}
+    for i in range(6 if tier == "quick" else 60):
+        g = gg.rand_graph(rng, max_n=3, max_e=2, max_props=2)
+        yield {"kind": "invalid", "entry": "write_arrays", "fmt": rng.choice([2, 3]), "pre": rng.choice(["fresh", "foreign"]), "overwrite": False,
+               "validate": True, "old": None, "expand": rng.choice(["listing", "reversed", "chunks-first", "meta-first"]), **malform(rng, g)}
+
     # every other writing entry point on a directory target (converters, write_dicts / backend writers called directly, the
     # spatial-graph writer): harness/c05_entries.py, tied to Entry.v
     from harness import c05_entries
 
     yield from c05_entries.generate(rng, tier)
+
+def rich_old(rng):
+    """a previous graph with at least two nodes, a masked property and non-zero ids (so that a half-deleted copy is a DIFFERENT graph)"""
+    while True:
+        g = gg.rand_graph(rng, max_n=4, max_e=3, max_props=3)
+        if g["nids"]["shape"][0] >= 2 and any(v for v in g["nids"]["data"]) and g["nprops"]:
+            return g
 
 
 def dicts_case(rng):
@@ -168,7 +186,7 @@ def run_impl(c):
     # fault-free run
     inner = make_pre(c, it)
     pre_tree = dump_tree(inner, it)
-    ts = TracingStore(inner)
+    ts = TracingStore(inner, expand=c.get("expand"))
     captured = []
     try:
         from harness.c06 import capture_write_arrays
@@ -192,7 +210,7 @@ def run_impl(c):
     outcomes = []
     for k in range(n):
         inner_k = make_pre(c, it)
-        tk = TracingStore(inner_k, fail_at=k)
+        tk = TracingStore(inner_k, fail_at=k, expand=c.get("expand"))
         try:
             call_entry(c, tk)
             outcomes.append("completed")  # only when the library swallowed the failure
@@ -295,7 +313,7 @@ def describe(c, o):
 
         return c05_entries.describe(c, o)
     cnt = Counter(o["verdicts"])
-    return f"{c['entry']}:{c['kind']}:v{c['fmt']}:{c['pre']}:ov={int(c['overwrite'])}:{o['res'][0] if o['res'][0]=='ok' else o['res'][1]}:muts~{o['mutations']//10*10}:{'+'.join(sorted(cnt))}"
+    return f"{c['entry']}:{c['kind']}{':keys=' + c['expand'] if c.get('expand') else ''}:v{c['fmt']}:{c['pre']}:ov={int(c['overwrite'])}:{o['res'][0] if o['res'][0]=='ok' else o['res'][1]}:muts~{o['mutations']//10*10}:{'+'.join(sorted(cnt))}"
 
 
 def extra_coverage():
